@@ -703,6 +703,11 @@ def eqv(a, b):
         if len(a) != len(b):
             return z3.BoolVal(False)
         return z3.And([eqv(x, y) for x, y in zip(a, b)]) if a else z3.BoolVal(True)
+    import numpy as _np
+    if isinstance(a, _np.ndarray) and a.ndim == 0:          # 0-d object arrays hold one proxy
+        a = a.item()
+    if isinstance(b, _np.ndarray) and b.ndim == 0:
+        b = b.item()
     r = (a == b)
     if isinstance(r, SV):
         return r.t
